@@ -65,6 +65,7 @@ Definition dim_repeat : Z := 12.     (* repeated execution in the same process *
 Definition dim_export : Z := 13.     (* repeated ExportGenesis of one state *)
 Definition dim_clock : Z := 14.      (* wall clock straddling a duration threshold *)
 Definition dim_restart : Z := 15.    (* node rebuilt from its committed state at a block boundary *)
+Definition dim_abci : Z := 16.       (* real ABCI: in-memory node vs node re-opened from disk at block boundaries *)
 
 Fixpoint zlist_eqb (a b : list Z) : bool :=
   match a, b with
